@@ -234,8 +234,16 @@ def s_trace(ch, T):
     form = ch.choose("form", ["func", "method"])
     style = ch.choose("style", ["pos", "kw"] if offset is not None else ["pos"])
     a = "" if offset is None else ("%d" % offset if style == "pos" else "offset=%d" % offset)
+    # axis1 / axis2 (today rejected by the reverse rule - a loud failure; if a rule ever accepts them it must be right for every order and sign)
+    axes = ch.choose("axes", [None, (0, 1), (1, 0), (-1, -2), (-2, -1)] + ([(0, 2), (2, 0), (-1, 0)] if len(shape) >= 3 else []))
+    if axes is not None:
+        if style == "pos" and offset is not None:
+            a += ", %d, %d" % axes
+        else:
+            a += (", " if a else "") + "axis1=%d, axis2=%d" % axes
     expr = ("np.trace(x%s)" % ((", " + a) if a else "")) if form == "func" else "x.trace(%s)" % a
-    return Case("trace", expr, dict(x=x), dict(rank=len(shape), form=form, style=style), family="S")
+    return Case("trace", expr, dict(x=x), dict(rank=len(shape), form=form, style=style, axes=("none" if axes is None else A.sign_of(axes)),
+                                               axes_swapped=bool(axes is not None and (axes[0] % len(shape)) > (axes[1] % len(shape)))), family="S")
 
 
 def _tri(name):
